@@ -23,10 +23,11 @@ def V(id, props, spec, fns, stmt, tier="quick", assumes=(), timeout=300, rlimit=
                     assumes=list(assumes), timeout=timeout, rlimit=rlimit))
 
 
-def N(id, props, test, fns, stmt, pkg="owlchess", tier="quick", assumes=(), timeout=900):
-    """native exhaustive evaluation of a finite instance set (labelled exhaustive-eval)"""
+def N(id, props, test, fns, stmt, pkg="owlchess", tier="quick", assumes=(), timeout=900, bounded=None):
+    """native exhaustive evaluation of a finite instance set (labelled exhaustive-eval); `bounded` =
+    the instance set is a stated finite part of the obligation's domain (never counted as proved)"""
     OBS.append(dict(id=id, props=list(props), backend="exhaustive-eval", pkg=pkg, test=test, fns=list(fns), stmt=stmt,
-                    tier=tier, assumes=list(assumes), timeout=timeout))
+                    tier=tier, assumes=list(assumes), timeout=timeout, bound=bounded))
 
 
 # ---------------------------------------------------------------------------------------------
@@ -495,6 +496,10 @@ for _r, _rn in ((0, "eighth"), (3, "fifth"), (7, "first")):
 N("C08/record/tail-values", ["C08", "C12"], "board::verif_kani_f::n08_record_tail_all_values", ["<RawBoard as Display>::fmt", "<RawBoard as FromStr>::from_str", "board::parse_ep_source", "RawBoard::ep_dest"],
   "for both sides x all 16 rights sets x every rank-consistent en-passant mark (and none) x every value of each counter (and a 9x9 grid of boundary pairs), board field fixed: the record is exactly six space-separated fields in order (side, rights as KQkq or -, the square behind the marked pawn or -, half-move clock, move number) and from_str of the text returns the same raw board (exhaustive native evaluation, ~38 million records)",
   timeout=3000)
+
+N("C08/record/tail-texts", ["C08", "C12"], "board::verif_kani_f::n08_record_tail_text_grammar", ["<RawBoard as FromStr>::from_str", "board::parse_ep_source", "<RawBoard as Display>::fmt"],
+  "for every record '<board> <side> <rights> <mark> <clock> <number>' built from a finite token grammar (5 side tokens x 24 rights tokens x 70 mark tokens x 9 x 9 counter tokens, plus records cut after each field): parsing never panics, and whenever it returns a raw board, formatting that board and parsing the text again returns the same raw board",
+  bounded="records built from the token grammar listed in kani/board_harness_f.rs (about 680 000 texts)", timeout=1800)
 
 K("C12/san/from-str-4", ["C12", "C09", "C02"], "moves::san::verif_kani_d::c12_san_from_str_total_len4", ["<san::Move as FromStr>::from_str", "<san::Data as FromStr>::from_str"],
   "for all UTF-8 strings of <= 4 bytes (this contains every input of defect D2: \"N\", \"R+\", \"Kx\", \"\\u{20ac}\", \"N\\u{e9}4\"): SAN parsing returns a value or an error, never panics",
